@@ -273,6 +273,24 @@ def step (st : St) (n : Nat) (ln : Line) : St × List String :=
       | some r => [specfail n s!"race/{a.getD 0 "?"}-ranges-overlap" s!"range at {r.1} count {r.2} overlaps its successor"]
       | none => []
     (st, msgs ++ (if rs.length != tokNat (o.getD 0 "0") || rs.isEmpty then [s!"DIFF {n} race unparsable output"] else []) ++ [s!"COV race.{a.getD 0 "?"}"])
+  ------------------------------------------------------------------ heartbeat on a new leader vs assigns (real goroutines)
+  | "hbrace" =>
+    -- hbrace <firstVid> <nVols> <maxFileKey> <clients> => <eof|err> <below> <lowest vid:key|-> <grants> <panics>
+    let firstVid := argN 0; let nVols := argN 1; let maxKey := argN 2; let clients := argN 3
+    if a.length < 4 || nVols < 1 || nVols > 100000 || clients < 1 || clients > 64 || firstVid < 1 then (st, diff n ln ["invalid"]) else
+    let hb : Heartbeat := { maxFileKey := maxKey, vols := (List.range nVols).map (· + firstVid) }
+    -- model: a new leader (sequencer at 1, nothing writable); the heartbeat's steps in the order of the source
+    -- (`hbOrder`, tied to SendHeartbeat by bridge_hb_order); assigns before / between / after them
+    let s0 : MSt := { seq := Mem.new }
+    let model := ["eof", toString (hbBelow hbOrder hb s0)]
+    -- the remaining outputs depend on the schedule: the lowest grant is judged, the counts are reported
+    let lowest := parseRanges [o.getD 2 "-"]
+    let msgs := match hbBad hb.maxFileKey hb.vols lowest, hbJudge hb.maxFileKey hb.vols lowest with
+      | some g, some cls => [specfail n cls s!"volume {g.1} was granted key {g.2} although the heartbeat that made it writable reported keys up to {maxKey} in use ({o.getD 1 "?"} of {o.getD 3 "?"} grants not above it)"]
+      | _, _ => []
+    let cov := (if tokNat (o.getD 3 "0") > 0 then ["COV hb.race"] else ["COV hb.race.no-grant"])
+      ++ (if tokNat (o.getD 4 "0") > 0 then ["COV hb.race.client-panic"] else [])
+    (st, diff n { ln with outs := o.take 2 } model ++ msgs ++ cov)
   | _ => (st, [s!"DIFF {n} unknown-op {ln.op}"])
 
 def main : IO Unit := run { init := ({} : St), step := step }
